@@ -190,3 +190,37 @@ fn k_subject2_replay__events_after_a_terminal_are_ignored() {
   assert!(l.is(&[EV_N | a as u32, EV_C]), "subject.replay: a subscriber arriving after complete() must get the items emitted before it and the stored completion, whatever is signalled on the subject afterwards");
   kani::cover!(true, "harness reaches its end");
 }
+
+// a subscriber that ends DURING the hand-over (the handed value already satisfies a downstream take(1)) must not be left registered
+// in the inner Subject: its teardown has already run by the time the inner subscription exists
+#[kani::proof]
+#[kani::unwind(3)]
+fn k_subject2_behavior__subscriber_that_ends_during_the_hand_over_is_not_held() {
+  let v: u8 = kani::any();
+  let sbj = subjects::BehaviorSubject::<u8>::new(v);
+  let l = Log::new();
+  let _s = attach_o(&sbj.observable().take(1), l);
+  assert!(l.is(&[EV_N | v as u32, EV_C]), "subject.behavior: take(1) on a BehaviorSubject must deliver the latest value and complete");
+  assert!(crate::subjects::subject::verif_k::held(&sbj.subject) == 0, "subject.drops: the inner Subject of a BehaviorSubject holds the observer of a subscriber that ended during the hand-over");
+  kani::cover!(true, "harness reaches its end");
+}
+
+#[kani::proof]
+#[kani::unwind(3)]
+fn k_subject2_replay__subscriber_that_ends_during_the_replay_is_not_held() {
+  let (a, b): (u8, u8) = (kani::any(), kani::any());
+  let sbj = subjects::ReplaySubject::<u8>::new();
+  sbj.next(a);
+  sbj.next(b);
+  let l = Log::new();
+  let _s = attach_o(&sbj.observable().take(1), l);
+  assert!(l.is(&[EV_N | a as u32, EV_C]), "subject.replay: take(1) on a ReplaySubject with history must deliver the first past item and complete");
+  assert!(crate::subjects::subject::verif_k::held(crate::subjects::replay_subject::verif_k::inner(&sbj)) == 0, "subject.drops: the inner Subject of a ReplaySubject holds the observer of a subscriber that ended during the replay");
+  // a subscriber that arrives after the terminal is handed history + terminal and is not kept either
+  sbj.complete();
+  let l2 = Log::new();
+  let _s2 = attach_o(&sbj.observable(), l2);
+  assert!(l2.is(&[EV_N | a as u32, EV_N | b as u32, EV_C]), "subject.replay: a subscriber arriving after complete() must get every past item and the stored completion");
+  assert!(crate::subjects::subject::verif_k::held(crate::subjects::replay_subject::verif_k::inner(&sbj)) == 0, "subject.drops: the inner Subject of a terminated ReplaySubject holds the observer of a late subscriber");
+  kani::cover!(true, "harness reaches its end");
+}
